@@ -136,11 +136,22 @@ fn stop(name: &str) -> Rc<Statement> {
 }
 
 pub fn enabled(kinds: &[Kind], k: usize, rich: bool, pad: usize) -> Vec<Op> {
+    enabled_mode(kinds, k, if rich { 1 } else { 0 }, pad)
+}
+
+/// mode 0: lists/boxes/closures; 1: rich (adds trees, pairs, two-block records, closures over two
+/// variables); 2: records only (literals, boxes, pairs, two-block records; no lists, no closures)
+pub fn enabled_mode(kinds: &[Kind], k: usize, mode: u8, pad: usize) -> Vec<Op> {
+    let rich = mode >= 1;
+    let records = mode == 2;
     let n = kinds.len();
     let mut ops = Vec::new();
     if n < k {
-        ops.extend_from_slice(&[Op::Lit, Op::Nil]);
-        if rich {
+        ops.push(Op::Lit);
+        if !records {
+            ops.push(Op::Nil);
+        }
+        if rich && !records {
             ops.push(Op::Leaf);
         }
     }
@@ -172,6 +183,9 @@ pub fn enabled(kinds: &[Kind], k: usize, rich: bool, pad: usize) -> Vec<Op> {
         ops.push(Op::Switch);
     }
     for m in 0..=(if rich { 2usize } else { 1 }).min(n) {
+        if records {
+            break;
+        }
         // closures capturing closures are excluded to keep kinds finite
         if n - m < k && kinds[n - m..].iter().all(|x| !matches!(x, Kind::Cont(_))) {
             ops.push(Op::Create(m));
@@ -292,6 +306,8 @@ pub struct Search {
     pub types: Vec<TypeDeclaration>,
     pub prog: AnyProg,
     pub cache: HashMap<(Op, Vec<Kind>), usize>,
+    /// fragments with identical text are stored once (text -> start index)
+    pub text_cache: HashMap<String, usize>,
     pub k: usize,
     /// identity integer variables in front of the window (moves the window across the
     /// register/spill boundary)
@@ -316,7 +332,7 @@ impl Search {
     pub fn new(arch: Arch, k: usize, max_live: usize, pad: usize) -> Search {
         let info = arch_info(arch);
         let heap_words = info.block_words * (max_live + 8);
-        Search { arch, info, types: std_types(), prog: AnyProg::new(arch), cache: HashMap::new(), k, pad, max_live, heap_words, footprint_bound: 2, code_class: HashMap::new() }
+        Search { arch, info, types: std_types(), prog: AnyProg::new(arch), cache: HashMap::new(), text_cache: HashMap::new(), k, pad, max_live, heap_words, footprint_bound: 2, code_class: HashMap::new() }
     }
 
     /// The machine state right after the real prologue (or the harness set-up on RV64).
@@ -358,7 +374,14 @@ impl Search {
         }
         let stmt = op_statement(&self.types, op, kinds, self.pad);
         let text = fragment(self.arch, &self.types, stmt, TypingContext { bindings: ctx_of(kinds) }).map_err(|e| format!("{e:?}"))?;
-        let start = self.prog.append(&text)?;
+        let start = match self.text_cache.get(&text) {
+            Some(s) => *s,
+            None => {
+                let s = self.prog.append(&text)?;
+                self.text_cache.insert(text, s);
+                s
+            }
+        };
         self.cache.insert((op, kinds.to_vec()), start);
         Ok(start)
     }
@@ -367,7 +390,7 @@ impl Search {
     /// on it is caught instead of being merged away by the canonical form.
     fn scrub(&self, node: &mut Node) {
         let n = node.kinds.len();
-        let dead = Word::undef(0x0dead_0000);
+        let dead = crate::emu::any::SCRUBBED;
         for p in 2 * n..(2 * (self.k + self.pad + 6)).min(self.info.temps.len()) {
             node.st.set_loc(self.info.temps[p], dead);
         }
@@ -706,11 +729,41 @@ struct QNode {
     peak: usize,
     path: Vec<Op>,
 }
-fn pack(n: Node) -> QNode {
-    QNode { c: n.st.compact(), kinds: n.kinds, vals: n.vals, peak: n.peak, path: n.path }
+fn rval_bytes(v: &RVal) -> usize {
+    32 + match v {
+        RVal::Int(_) => 0,
+        RVal::Data(_, fs) | RVal::Clo(fs) => fs.iter().map(rval_bytes).sum(),
+    }
+}
+impl QNode {
+    fn approx_bytes(&self) -> (usize, usize, usize) {
+        (self.c.approx_bytes(), self.vals.iter().map(rval_bytes).sum::<usize>() + self.kinds.len() * std::mem::size_of::<Kind>(), self.path.len() * std::mem::size_of::<Op>())
+    }
+}
+fn pack(n: Node, template: &AnyState) -> QNode {
+    QNode { c: n.st.compact(template), kinds: n.kinds, vals: n.vals, peak: n.peak, path: n.path }
 }
 
-pub fn search(arch: Arch, k: usize, max_live: usize, rich: bool, pad: usize, max_states: u64, ctx: &WorkerCtx, rep: &mut Report) -> BfsOutcome {
+/// Resident set size of this process in MiB (the searches cap themselves on it: the machine has no swap).
+fn rss_mb() -> u64 {
+    std::fs::read_to_string("/proc/self/statm").ok().and_then(|t| t.split_whitespace().nth(1).and_then(|p| p.parse::<u64>().ok())).map(|pages| pages * 4096 / (1 << 20)).unwrap_or(0)
+}
+
+unsafe extern "C" {
+    fn malloc_trim(pad: usize) -> i32;
+}
+
+pub fn search(arch: Arch, k: usize, max_live: usize, mode: u8, pad: usize, max_states: u64, ctx: &WorkerCtx, rep: &mut Report) -> BfsOutcome {
+    let out = search_inner(arch, k, max_live, mode, pad, max_states, ctx, rep);
+    // give the queue and the visited set back to the system before the next configuration
+    unsafe {
+        malloc_trim(0);
+    }
+    out
+}
+
+fn search_inner(arch: Arch, k: usize, max_live: usize, mode: u8, pad: usize, max_states: u64, ctx: &WorkerCtx, rep: &mut Report) -> BfsOutcome {
+    let rss_cap: u64 = std::env::var("VERIF_RSS_CAP_MB").ok().and_then(|v| v.parse().ok()).unwrap_or(2500);
     let mut s = Search::new(arch, k, max_live, pad);
     let mut out = BfsOutcome { states: 0, transitions: 0, depth: 0, fixpoint: false, cap: None };
     let init = match s.initial() {
@@ -724,7 +777,7 @@ pub fn search(arch: Arch, k: usize, max_live: usize, rich: bool, pad: usize, max
     seen.insert(s.canon(&init));
     let template = init.st.clone();
     let mut level: VecDeque<QNode> = VecDeque::new();
-    level.push_back(pack(init));
+    level.push_back(pack(init, &template));
     out.states = 1;
     let mut depth = 0;
     let mut violation_sigs: HashSet<String> = HashSet::new();
@@ -732,7 +785,7 @@ pub fn search(arch: Arch, k: usize, max_live: usize, rich: bool, pad: usize, max
         let mut next_level = VecDeque::new();
         while let Some(q) = level.pop_front() {
             let node = Node { st: AnyState::expand(&template, &q.c), kinds: q.kinds, vals: q.vals, peak: q.peak, path: q.path };
-            for op in enabled(&node.kinds[s.pad..], k, rich, s.pad) {
+            for op in enabled_mode(&node.kinds[s.pad..], k, mode, s.pad) {
                 out.transitions += 1;
                 match s.step(&node, op) {
                     StepResult::Capacity => rep.count("pruned_by_backend_capacity", 1),
@@ -785,7 +838,7 @@ pub fn search(arch: Arch, k: usize, max_live: usize, rich: bool, pad: usize, max
                             if rep.samples.len() < 3 && n.path.len() >= 5 {
                                 rep.sample(json!({"arch": arch.name(), "history": n.path.iter().map(|o| o.name()).collect::<Vec<_>>(), "environment": format!("{:?}", n.kinds), "live_blocks": facts.live, "deferred": facts.deferred, "waiting": facts.waiting}));
                             }
-                            next_level.push_back(pack(n));
+                            next_level.push_back(pack(n, &template));
                         }
                     }
                 }
@@ -798,10 +851,21 @@ pub fn search(arch: Arch, k: usize, max_live: usize, rich: bool, pad: usize, max
                 out.cap = Some(format!("time budget hit at depth {depth} ({} K={k} live<={max_live}); all histories of length <= {depth} were covered", arch.name()));
                 break 'bfs;
             }
+            if out.transitions % 8192 < 64 && rss_mb() > rss_cap {
+                out.cap = Some(format!("memory cap {rss_cap} MiB hit at depth {depth} after {} states ({} K={k} live<={max_live} alphabet={mode} pad={pad}); all histories of length <= {depth} were covered", out.states, arch.name()));
+                break 'bfs;
+            }
         }
         depth += 1;
         if std::env::var("VERIF_BFS_TRACE").is_ok() {
-            eprintln!("{} depth {depth}: {} new states, total {}", arch.name(), next_level.len(), out.states);
+            let (mut a, mut b, mut c) = (0usize, 0usize, 0usize);
+            for q in &next_level {
+                let (x, y, z) = q.approx_bytes();
+                a += x;
+                b += y;
+                c += z;
+            }
+            eprintln!("{} depth {depth}: {} new states, total {}; queue bytes: snapshots {a} values {b} paths {c}; code cache {} fragments ({} distinct texts) {} instructions; rss {} MiB", arch.name(), next_level.len(), out.states, s.cache.len(), s.text_cache.len(), s.prog.len(), rss_mb());
         }
         level = next_level;
     }
